@@ -156,7 +156,16 @@ func (fl *Flow) feasible(e *Event, idx int) bool {
 	if ed.Cond == nil {
 		return true
 	}
-	return fl.refineEdge(fl.transfer(e, st), ed.Cond, ed.Val) != nil
+	if fl.feasCache == nil {
+		fl.feasCache = map[edgeKey]bool{}
+	}
+	k := edgeKey{e, idx}
+	if v, ok := fl.feasCache[k]; ok {
+		return v
+	}
+	v := fl.refineEdge(fl.transfer(e, st), ed.Cond, ed.Val) != nil
+	fl.feasCache[k] = v
+	return v
 }
 
 // PathAvoiding searches a feasible path from `from` to an event matching
